@@ -922,7 +922,9 @@ LEVEL_TEXT = ("Machine-checked proof (Coq, 46 theorems, all closed under the glo
               "(graph, string, SynRule), every constructor option and construction route, repeated reads of the cached attributes, and histories "
               "of several reactors in one process (atom orders, numberings, options then defaults, results mutated, graph edited in place, "
               "template reused) are in the quick tier; clause (a) is judged against an independent RDKit reading of the substrate; default-mode "
-              "rule preparation is characterised exactly (C03_synrule_default_exact).")
+              "rule preparation is characterised exactly (C03_synrule_default_exact, pair ids in both directions), and clauses (b) and (c) are proved END TO "
+              "END for the default mode from conditions on the template alone (C03_default_end_to_end_direct/_expanded, "
+              "C03_default_changed_bonds, C03_default_migrations_in_template_groups); SynRule objects as templates are modelled (C03_wrap_rule).")
 LEVEL_NOTE = ("Trusted: Coq kernel + vm_compute; the hand-written model, the statement vocabulary (proof/C03_Spec.v) and the harness encoders; RDKit "
               "parsing and VF2 matching are oracle inputs (every mapping used is re-validated by the model's match_okb / match_rcb and the theorems' "
               "hypotheses are recomputed on every case). Modelled and compared but NOT proved: default-mode rule preparation (_strip_explicit_h), "
